@@ -266,7 +266,7 @@ class G:
             self.st[s]["en"] = False
             self.st[s]["ever_disabled"] = True
             return
-        if x < 0.66 + 0.02 and en and self.cls in ("faults", "life", "mix", "disable"):
+        if x < 0.66 + 0.02 and en and self.cls not in ("timers", "idle"):
             # enabling a source that is enabled already: must fail and change nothing (fd-backed kinds only)
             cand = [s for s in en if self.decl(s)["kind"] != "timer"]
             if cand:
